@@ -379,6 +379,9 @@ void Interpret::interp(ASTNode& n) {
         }
     } catch (ApiException const &e) {
         notify_formatted(true, "%s", e.what());
+    } catch (std::logic_error const & e) {
+        // thrown for features a theory does not implement (models in array logics, interpolation in UF+LA, ...)
+        notify_formatted(true, "%s", e.what());
     }
 }
 
